@@ -593,7 +593,7 @@ func (ex *Exec) callSSA(caller *frame, fn *ssa.Function, args []Value, env []Val
 		return ex.callFunction(caller, stub, args, nil)
 	case CallHavoc:
 		ex.Stats.Havocked[name]++
-		return ex.havocResult(caller, name, fn.Signature.Results())
+		return ex.ignoreResult(fn.Signature.Results())
 	case CallInterpret:
 		if fn.Blocks == nil {
 			panic("no body for " + name + " (add an intrinsic)")
@@ -601,6 +601,30 @@ func (ex *Exec) callSSA(caller *frame, fn *ssa.Function, args []Value, env []Val
 		return ex.callFunction(caller, fn, args, env)
 	}
 	panic("call of unmodelled external function " + name + " (declare it in the policy)")
+}
+
+// ignoreResult is the result of a call into a package treated as a no-op (logging, tracing):
+// zero values, except that pointer results are non-nil pointers to zero values.
+func (ex *Exec) ignoreResult(res *types.Tuple) Value {
+	one := func(t types.Type) Value {
+		if p, ok := t.Underlying().(*types.Pointer); ok {
+			c := new(Value)
+			*c = ex.zero(p.Elem())
+			return c
+		}
+		return ex.zero(t)
+	}
+	switch res.Len() {
+	case 0:
+		return nil
+	case 1:
+		return one(res.At(0).Type())
+	}
+	t := make(Tuple, res.Len())
+	for i := range t {
+		t[i] = one(res.At(i).Type())
+	}
+	return t
 }
 
 // havocResult returns fresh unconstrained values for the result types.
